@@ -3,7 +3,7 @@ from __future__ import annotations
 
 import numpy as np
 
-from .. import gen, ref
+from .. import contracts, gen, ref
 from ..core import FAILED
 
 DECIDING = ["O1:adjoint-identity", "O2:dual-dual", "O3:unital<=>dual-TP", "O4:complementary-entries", "O4:complementary-trace",
@@ -23,6 +23,11 @@ def cases(tier):
     out += [("comp", r) for r in range(150 if tier == "quick" else 5000)]
     out += [("unital", r) for r in range(100 if tier == "quick" else 3000)]
     return out
+
+
+def setup(ctx):
+    # internal calls of apply_channel / kraus_to_choi (made by the predicates, dual / partial channels ...) are observed as well
+    contracts.install(ctx, contracts.CHANNEL_CONTRACTS)
 
 
 def run(ctx, spec, rng):
